@@ -3,6 +3,14 @@
 package c2
 
 import (
+	"bytes"
+	"context"
+	"io"
+	"net"
+	"time"
+
+	"github.com/iDigitalFlame/xmt/c2/cfg"
+	"github.com/iDigitalFlame/xmt/c2/cout"
 	"github.com/iDigitalFlame/xmt/com"
 	"github.com/iDigitalFlame/xmt/data"
 	"github.com/iDigitalFlame/xmt/device"
@@ -144,3 +152,96 @@ func (d *VerifC06Direct) Exchange(n *com.Packet, reply []byte, fault int) (srvSa
 	d.C.keyCheckSync()
 	return srvSaw, cliSaw
 }
+
+// ---- the real client round over any profile stack (group "histw") --------------------------------
+
+// Arm gives the client Session of the pair the fields connectContextInner sets (queue, wake, event
+// queue, log) and the Wrapper / Transform of the profile stack; no goroutine is started.
+func (d *VerifC06Direct) Arm(w cfg.Wrapper, t cfg.Transform) {
+	s := d.C
+	s.Device.ID = s.ID
+	s.log, s.sleep = cout.New(nil), time.Hour
+	s.w, s.t = w, t
+	s.host.Set("mem")
+	s.wake, s.ch = make(chan struct{}, 1), make(chan struct{})
+	s.frags, s.m = make(map[uint16]*cluster), make(eventer, maxEvents)
+	s.ctx, s.send, s.tick = context.Background(), make(chan *com.Packet, 128), newSleeper(s.sleep)
+}
+
+// Queue puts a packet in the client's send queue, the way Session.Write does for a short packet.
+func (d *VerifC06Direct) Queue(n *com.Packet) { d.C.send <- n }
+
+// Round runs the real (*Session).session(c) of the client once. rekey overrides the random roll of
+// keyNextSync for the call (true: generate a re-key now when nothing is queued).
+func (d *VerifC06Direct) Round(c net.Conn, rekey bool) bool {
+	old := VerifC06Roll
+	VerifC06Roll = func(*Session, int) uint32 {
+		if rekey {
+			return 0
+		}
+		return 1
+	}
+	defer func() { VerifC06Roll = old }()
+	return d.C.session(c)
+}
+
+// Serve is the server half of one non-channel round on the bytes the client put on the wire:
+// readPacket through the same stack, then the key calls of Listener.talk / notify / handle in source
+// order (see Exchange), then the reply through writePacket. It returns what the handler saw of the
+// packet's buffer and the reply's wire bytes.
+func (d *VerifC06Direct) Serve(wire []byte, w cfg.Wrapper, t cfg.Transform, id uint8, reply []byte) (crypt bool, srvSaw, replyWire []byte, err error) {
+	n, err := readPacket(&verifC06Mem{r: bytes.NewReader(wire)}, w, t)
+	if err != nil {
+		return false, nil, nil, err
+	}
+	crypt = n.Flags&com.FlagCrypt != 0
+	c := &conn{host: d.S, keys: d.S.keys}
+	d.S.keyCryptAndUpdate(d.L.name, n, true)
+	srvSaw = append([]byte(nil), data.VerifC06Buf(&n.Chunk)...)
+	d.S.keyCryptAndUpdate(d.L.name, n, false)
+	r := &com.Packet{ID: id, Job: 7, Device: d.C.ID}
+	r.Write(reply)
+	r.KeyCrypt(c.keys)
+	d.S.keyCheckSync()
+	o := &verifC06Mem{}
+	if err = writePacket(o, w, t, r); err != nil {
+		return crypt, srvSaw, nil, err
+	}
+	return crypt, srvSaw, o.w.Bytes(), nil
+}
+
+// Seen drains the client's event queue and returns the buffers of the packets handed to the mux.
+func (d *VerifC06Direct) Seen() [][]byte {
+	var out [][]byte
+	q, _ := d.C.m.(eventer)
+	for {
+		select {
+		case e := <-q:
+			if e.p != nil {
+				out = append(out, append([]byte(nil), data.VerifC06Buf(&e.p.Chunk)...))
+			}
+			continue
+		default:
+		}
+		return out
+	}
+}
+
+type verifC06Mem struct {
+	r *bytes.Reader
+	w bytes.Buffer
+}
+
+func (m *verifC06Mem) Read(b []byte) (int, error) {
+	if m.r == nil {
+		return 0, io.EOF
+	}
+	return m.r.Read(b)
+}
+func (m *verifC06Mem) Write(b []byte) (int, error)    { return m.w.Write(b) }
+func (*verifC06Mem) Close() error                     { return nil }
+func (*verifC06Mem) LocalAddr() net.Addr              { return nil }
+func (*verifC06Mem) RemoteAddr() net.Addr             { return nil }
+func (*verifC06Mem) SetDeadline(time.Time) error      { return nil }
+func (*verifC06Mem) SetReadDeadline(time.Time) error  { return nil }
+func (*verifC06Mem) SetWriteDeadline(time.Time) error { return nil }
